@@ -224,7 +224,7 @@ def run(ctx):
         meta.append(m)
     res = coqio.run_cases(ctx.scratch, "c02", IMPORTS, "case_t", cases,
                           {"tie": "tie_ok", "spec": "spec_ok", "good": "good_ok", "same": "same_ok", "flat": "flat_ok"},
-                          extra=EXTRA, shard=250)
+                          extra=EXTRA, shard=400)
     f02_class = set(res["good"])            # cases where good_removalb is false
     out = Outcome(evaluations=len(meta) + len(pyfail), distinct_nontrivial=nontrivial, rule=RULE,
                   samples=[sample(m) for m in pick(meta)], distribution=dist, traces_validated=len(meta),
@@ -241,19 +241,21 @@ def run(ctx):
     def case_json(m):
         return {"tree": m["tree"], "splitter": G.show(m["tree"]), "shapes": m["shapes"], "comb": m["comb"],
                 "combiner": [G.FIELDS[c] for c in m["comb"]], "level": m["level"]}
-    for m, note in pyfail[:20]:
+    for m, note in pyfail[:6]:
         out.failures.append(Failure(case=case_json(m), observed={"obs": m["obs"], **m["details"]},
                                     expected=expected(ctx, m, "spec"), kind="spec", note=note))
     spec_bad = set(res["spec"])
-    shown = 0
-    for i in res["spec"]:
+    shown = {True: 0, False: 0}
+    for i in sorted(res["spec"], key=lambda i: len(json.dumps(case_json(meta[i])))):
         m = meta[i]
         in_class = i in f02_class
-        if in_class and shown >= 5:
+        if shown[in_class] >= 4:
+            # the expected value is evaluated (one coqc run each) only for the first few failures of each kind
             out.failures.append(Failure(case=case_json(m), observed={"obs": m["obs"]}, expected=None, kind="spec",
-                                        finding=F02, note="F02"))
+                                        finding=F02 if in_class else None,
+                                        note="groups differ from the ordered partition by the remaining axes (%s level)" % m["level"]))
             continue
-        shown += in_class
+        shown[in_class] += 1
         out.failures.append(Failure(
             case=case_json(m), observed={"obs": m["obs"], **{k: v for k, v in m["details"].items() if k != "out"}},
             expected=expected(ctx, m, "spec"), kind="spec", finding=F02 if in_class else None,
